@@ -162,6 +162,18 @@ def rules(ctx):
     gap_operands(ctx)
     from .C12 import path_new_checks_every_hop
     path_new_checks_every_hop(ctx, "R2")
+    # "chronological path whose consecutive nodes are connectable": the times and turnaround figures can_reach works with are the instance's
+    from .C17 import loader_subset as _ls, getters as _getters
+    _ls(ctx, ["Config-new-positional"])
+    before = len(ctx.obligations)
+    _getters(ctx)
+    ctx.obligations[before:] = [o_ for o_ in ctx.obligations[before:] if o_.id.endswith(("getter.start_time", "getter.end_time", "getter.start_location", "getter.end_location"))]
+    for o_ in ctx.obligations[before:]:
+        o_.id = o_.id.replace("C10/R1.", "C10/R2.model.")
+    from . import formulas as _fm
+    before = len(ctx.obligations)
+    _fm.three_opt_details(ctx, "R3")      # every vehicle in exactly one cycle: a re-ordered cycle is a permutation of the old one
+    ctx.obligations[before:] = [o_ for o_ in ctx.obligations[before:] if "new-cycle" in o_.id or "index" in o_.id]
     from .C15 import empty_cycle_bookkeeping
     empty_cycle_bookkeeping(ctx)     # every vehicle sits in exactly one cycle: the free-list never hands out an occupied cycle
     # the producer-set and guard rules behind the tour / limit / membership invariants
